@@ -81,7 +81,7 @@ Qed.
 
 Lemma flag_ok_mono d d' s m f : db_le d d' -> flag_ok H d s m f -> flag_ok H d' s m f.
 Proof.
-  intros Hle [H1 H2]. split; [exact H1|].
+  intros Hle (H1 & H2 & H3). split; [exact H1|]. split; [|exact H3].
   intros Hd. destruct (H2 Hd) as (Hc & Hf & Hcv & Hs). split; [exact Hc|]. split; [exact Hf|]. split.
   - eapply covers_mono; eassumption.
   - intros h Eh. apply Hle; [exact Hc|]. exact (Hs h Eh).
@@ -145,47 +145,6 @@ Proof.
   - left. split; [reflexivity|exact Ha].
   - right. exists xs, f'. auto.
 Qed.
-
-(* ------------------------------------------------------------------ the side condition of Hash without a database *)
-
-(* b = false: a clean node without cached hash is a small node in child position
-   (an embedded child as decodeNode builds it); b = true: no condition *)
-Definition cl_ok (b s : bool) (m : node) (f : flag) : Prop :=
-  b = false -> fhash f = None -> fdirty f = false -> s = true /\ big H m = false.
-
-Inductive hcl (b : bool) : bool -> node -> node -> Prop :=
-| hcl_hash s m h : hcl b s m (NHash h)
-| hcl_nil s m : hcl b s m NNil
-| hcl_val s m v : hcl b s m (NVal v)
-| hcl_short s k c x f f' :
-    hcl b true c x -> cl_ok b s (NShort k c f) f' -> hcl b s (NShort k c f) (NShort k x f')
-| hcl_full s cs xs f f' :
-    Forall2 (hcl b true) cs xs -> cl_ok b s (NFull cs f) f' -> hcl b s (NFull cs f) (NFull xs f').
-
-Lemma cl_ok_true s m f : cl_ok true s m f.
-Proof. intros E. discriminate E. Qed.
-
-Lemma lzf_hcl_true d : forall m s x, lzf H d s m x -> hcl true s m x.
-Proof.
-  induction m as [|k c f IH|cs f IH|h|v] using node_ind'; intros s x L.
-  - rewrite (lzf_nil_inv _ _ _ L). apply hcl_nil.
-  - destruct (lzf_short_inv _ _ _ _ _ _ L) as [[-> _]|(x1 & f' & -> & L1 & _ & _)]; [apply hcl_hash|].
-    apply hcl_short; [apply IH; exact L1|apply cl_ok_true].
-  - destruct (lzf_full_inv _ _ _ _ _ L) as [[-> _]|(xs & f' & -> & Ls & _ & _)]; [apply hcl_hash|].
-    apply hcl_full; [|apply cl_ok_true].
-    eapply Forall2_impl_l; [|exact Ls]. eapply Forall_impl; [|exact IH].
-    intros a Ha b0 Hab. apply Ha. exact Hab.
-  - inversion L as [s0 m0 Ha| | | |]; subst. apply hcl_hash.
-  - rewrite (lzf_val_inv _ _ _ _ L). apply hcl_val.
-Qed.
-
-Lemma hcl_short_inv b s k c f x1 f' : hcl b s (NShort k c f) (NShort k x1 f') ->
-  hcl b true c x1 /\ cl_ok b s (NShort k c f) f'.
-Proof. intros Hh. inversion Hh; subst. split; assumption. Qed.
-
-Lemma hcl_full_inv b s cs f xs f' : hcl b s (NFull cs f) (NFull xs f') ->
-  Forall2 (hcl b true) cs xs /\ cl_ok b s (NFull cs f) f'.
-Proof. intros Hh. inversion Hh; subst. split; assumption. Qed.
 
 (* ------------------------------------------------------------------ unfolding hasher.hash *)
 
@@ -261,57 +220,54 @@ Qed.
 
 (* ------------------------------------------------------------------ what hasher.hash establishes *)
 
-Definition lz_post (c : hctx) (d : db) (b force : bool) (m x' : node) (w : writes) : Prop :=
+Definition lz_post (c : hctx) (d : db) (force : bool) (m x' : node) (w : writes) : Prop :=
   wr_ok H w /\ (hdb c = false -> w = []) /\
   lzf H (db_put_all d w) (negb force) m x' /\ (force = false -> hash_big H m x') /\
   (hdb c = true -> (big H m = true \/ force = true) -> stored H (db_put_all d w) m) /\
-  (hdb c = true -> covers H (db_put_all d w) m) /\
-  hcl b (negb force) m x'.
+  (hdb c = true -> covers H (db_put_all d w) m).
 
 Lemma flagged_not_hash x f' : node_flag x = Some f' -> forall c, hash_big H c x.
 Proof. intros E c h Eh. subst x. discriminate E. Qed.
 
 (* a hash node, or a node unloaded to its hash node *)
-Lemma lz_hash_case c d b force m : avail H d m -> (big H m = true \/ force = true) ->
+Lemma lz_hash_case c d force m : avail H d m -> (big H m = true \/ force = true) ->
   exists x' w, Ok (RHash (H (spec_enc H m)), NHash (H (spec_enc H m)), @nil (bytes * bytes))
-               = Ok (href_of H m force, x', w) /\ lz_post c d b force m x' w.
+               = Ok (href_of H m force, x', w) /\ lz_post c d force m x' w.
 Proof.
   intros Ha Hbf. rewrite (href_of_hash m force Hbf). eexists. eexists. split; [reflexivity|].
   unfold lz_post. rewrite db_put_all_nil. destruct Ha as (Hc & Hf & Hs & Hcv).
   split; [constructor|]. split; [reflexivity|]. split; [apply lzf_hash; repeat split; assumption|].
-  split; [|split; [|split]].
+  split; [|split].
   - intros Ef h _. destruct Hbf as [Hb|Hb]; [exact Hb|congruence].
   - intros _ _. exact Hs.
   - intros _. exact Hcv.
-  - apply hcl_hash.
 Qed.
 
 (* cached hash, node kept: no database, or clean and not unloadable *)
-Lemma cached_keep c d b force m x f' h :
+Lemma cached_keep c d force m x f' h :
   node_flag x = Some f' -> fhash f' = Some h -> lzf H d (negb force) m x ->
-  flag_ok H d (negb force) m f' -> hcl b (negb force) m x -> (hdb c = true -> fdirty f' = false) ->
+  flag_ok H d (negb force) m f' -> (hdb c = true -> fdirty f' = false) ->
   exists x' w, Ok (RHash h, x, @nil (bytes * bytes)) = Ok (href_of H m force, x', w)
-               /\ lz_post c d b force m x' w.
+               /\ lz_post c d force m x' w.
 Proof.
-  intros En Ef L [O1 O2] Hh Hcl. destruct (O1 h Ef) as [-> Hsz].
+  intros En Ef L (O1 & O2 & _) Hcl. destruct (O1 h Ef) as [-> Hsz].
   assert (Hbf : big H m = true \/ force = true).
   { destruct force; [right; reflexivity|left; apply Hsz; reflexivity]. }
   rewrite (href_of_hash m force Hbf). eexists. eexists. split; [reflexivity|].
   unfold lz_post. rewrite db_put_all_nil.
   split; [constructor|]. split; [reflexivity|]. split; [exact L|].
-  split; [intros _; exact (flagged_not_hash x f' En m)|]. split; [|split].
+  split; [intros _; exact (flagged_not_hash x f' En m)|]. split.
   - intros Hdb _. destruct (O2 (Hcl Hdb)) as (_ & _ & _ & Hs). exact (Hs _ Ef).
   - intros Hdb. destruct (O2 (Hcl Hdb)) as (_ & _ & Hcv & _). exact Hcv.
-  - exact Hh.
 Qed.
 
 (* cached hash, clean, canUnload: the node is replaced by its hash node *)
-Lemma cached_unload c d b force m f' h :
+Lemma cached_unload c d force m f' h :
   fhash f' = Some h -> flag_ok H d (negb force) m f' -> fdirty f' = false ->
   exists x' w, Ok (RHash h, NHash h, @nil (bytes * bytes)) = Ok (href_of H m force, x', w)
-               /\ lz_post c d b force m x' w.
+               /\ lz_post c d force m x' w.
 Proof.
-  intros Ef [O1 O2] Hcl. destruct (O1 h Ef) as [-> Hsz].
+  intros Ef (O1 & O2 & _) Hcl. destruct (O1 h Ef) as [-> Hsz].
   destruct (O2 Hcl) as (Hc & Hf & Hcv & Hs).
   apply lz_hash_case.
   - split; [exact Hc|]. split; [exact Hf|]. split; [exact (Hs _ Ef)|exact Hcv].
@@ -319,21 +275,19 @@ Proof.
 Qed.
 
 (* after the children: store and the new flags *)
-Lemma finish_lazy c m xc f' w1 d force b :
+Lemma finish_lazy c m xc f' w1 d force :
   canon m = true -> all_fits H m -> db_sound H d -> wr_ok H w1 -> (hdb c = false -> w1 = []) ->
-  (hdb c = false -> b = false) ->
   node_flag xc = Some f' ->
-  flag_ok H d (negb force) m f' -> cl_ok b (negb force) m f' ->
+  flag_ok H d (negb force) m f' ->
   (hdb c = true -> covers H (db_put_all d w1) m) ->
   (forall d' fl, db_le (db_put_all d w1) d' -> flag_ok H d' (negb force) m fl ->
      lzf H d' (negb force) m (set_flag xc fl)) ->
-  (forall fl, cl_ok b (negb force) m fl -> hcl b (negb force) m (set_flag xc fl)) ->
   exists x' w,
     (let '(r, w2) := store H c (spec_item H m) (fhash f') force in
      Ok (r, set_hash_flag c xc r, w1 ++ w2)) = Ok (href_of H m force, x', w)
-    /\ lz_post c d b force m x' w.
+    /\ lz_post c d force m x' w.
 Proof.
-  intros Hc Hfit Hs Hw1 Hnw Hb En [O1 O2] Hcl Hcv Hbuild Hbuildh.
+  intros Hc Hfit Hs Hw1 Hnw En (O1 & O2 & Hcl) Hcv Hbuild.
   rewrite store_lazy by (intros h Eh; exact (proj1 (O1 h Eh))).
   change (encode (spec_item H m)) with (spec_enc H m). unfold href_of.
   destruct ((lenN (spec_enc H m) <? 32)%N && negb force) eqn:Econd.
@@ -341,8 +295,8 @@ Proof.
     destruct (cond_true _ _ Econd) as [Eb Efo].
     rewrite (set_hash_flag_eq c xc _ f' En). rewrite app_nil_r.
     eexists. eexists. split; [reflexivity|]. unfold lz_post.
-    split; [exact Hw1|]. split; [exact Hnw|]. split; [|split; [|split; [|split]]].
-    + apply Hbuild; [apply db_le_refl|]. split.
+    split; [exact Hw1|]. split; [exact Hnw|]. split; [|split; [|split]].
+    + apply Hbuild; [apply db_le_refl|]. split; [|split].
       * intros h Eh. discriminate Eh.
       * cbn [upd_flag fdirty fhash]. intros Hd. destruct (hdb c) eqn:Edb.
         -- split; [exact Hc|]. split; [exact Hfit|]. split; [exact (Hcv eq_refl)|].
@@ -350,11 +304,11 @@ Proof.
         -- rewrite (Hnw eq_refl), db_put_all_nil. destruct (O2 Hd) as (_ & _ & Hcv0 & _).
            split; [exact Hc|]. split; [exact Hfit|]. split; [exact Hcv0|].
            intros h Eh. discriminate Eh.
+      * intros _ _. split; [rewrite Efo; reflexivity|exact Eb].
     + intros _. apply (flagged_not_hash _ (upd_flag c f' (RInline (spec_item H m)))).
       destruct xc; try discriminate En; reflexivity.
     + intros _ [E|E]; congruence.
     + exact Hcv.
-    + apply Hbuildh. intros _ _ _. split; [rewrite Efo; reflexivity|exact Eb].
   - (* referenced by hash: the hash is cached, the encoding written *)
     pose proof (cond_false _ _ Econd) as Hbf.
     rewrite (set_hash_flag_eq c xc _ f' En).
@@ -373,59 +327,58 @@ Proof.
       split.
       { apply Forall_app. split; [exact Hw1|]. constructor; [|constructor].
         exists m. cbn [fst snd]. auto. }
-      split; [intros E; discriminate E|]. split; [|split; [|split; [|split]]].
-      * apply Hbuild; [exact Hle|]. split.
+      split; [intros E; discriminate E|]. split; [|split; [|split]].
+      * apply Hbuild; [exact Hle|]. split; [|split].
         -- cbn [upd_flag fhash]. intros h Eh. injection Eh as <-. split; [reflexivity|exact Hsz].
         -- intros _. split; [exact Hc|]. split; [exact Hfit|]. split; [exact Hcv'|].
            intros h _. exact Hst.
+        -- intros Eh. discriminate Eh.
       * intros _. apply (flagged_not_hash _ (upd_flag c f' (RHash (H (spec_enc H m))))).
         destruct xc; try discriminate En; reflexivity.
       * intros _ _. exact Hst.
       * intros _. exact Hcv'.
-      * apply Hbuildh. intros _ Eh. discriminate Eh.
     + (* Hash *)
-      rewrite app_nil_r. specialize (Hnw eq_refl). specialize (Hb eq_refl). subst w1 b.
-      split; [constructor|]. split; [reflexivity|]. split; [|split; [|split; [|split]]].
-      * apply Hbuild; [apply db_le_refl|]. rewrite db_put_all_nil. split.
+      rewrite app_nil_r. specialize (Hnw eq_refl). subst w1.
+      split; [constructor|]. split; [reflexivity|]. split; [|split; [|split]].
+      * apply Hbuild; [apply db_le_refl|]. rewrite db_put_all_nil. split; [|split].
         -- cbn [upd_flag fhash]. intros h Eh. injection Eh as <-. split; [reflexivity|exact Hsz].
         -- cbn [upd_flag fdirty fhash]. rewrite Edb. intros Hd.
            destruct (O2 Hd) as (_ & _ & Hcv0 & Hst0).
            split; [exact Hc|]. split; [exact Hfit|]. split; [exact Hcv0|].
            intros h _. destruct (fhash f') as [h0|] eqn:Ef0; [exact (Hst0 h0 eq_refl)|].
-           exfalso. destruct (Hcl eq_refl Ef0 Hd) as [E1 E2].
+           exfalso. destruct (Hcl eq_refl Hd) as [E1 E2].
            specialize (Hsz E1). congruence.
+        -- intros Eh. discriminate Eh.
       * intros _. apply (flagged_not_hash _ (upd_flag c f' (RHash (H (spec_enc H m))))).
         destruct xc; try discriminate En; reflexivity.
       * intros E. discriminate E.
       * intros E. discriminate E.
-      * apply Hbuildh. intros _ Eh. discriminate Eh.
 Qed.
 
 (* ------------------------------------------------------------------ (1) the inner theorem *)
 
 Definition lz_ok (m : node) : Prop :=
-  forall d x c force b, canon m = true -> all_fits H m ->
-    lzf H d (negb force) m x -> hcl b (negb force) m x -> (hdb c = false -> b = false) ->
+  forall d x c force, canon m = true -> all_fits H m ->
+    lzf H d (negb force) m x ->
     (force = false -> hash_big H m x) -> db_sound H d ->
-    exists x' w, hash_node H c x force = Ok (href_of H m force, x', w) /\ lz_post c d b force m x' w.
+    exists x' w, hash_node H c x force = Ok (href_of H m force, x', w) /\ lz_post c d force m x' w.
 
 (* the three shortcuts of hasher.hash on a node with flags *)
-Lemma dispatch_lazy c d b force m x f' :
+Lemma dispatch_lazy c d force m x f' :
   node_flag x = Some f' -> lzf H d (negb force) m x -> flag_ok H d (negb force) m f' ->
-  hcl b (negb force) m x ->
-  (exists x' w, walk_of c x f' force = Ok (href_of H m force, x', w) /\ lz_post c d b force m x' w) ->
-  exists x' w, hash_node H c x force = Ok (href_of H m force, x', w) /\ lz_post c d b force m x' w.
+  (exists x' w, walk_of c x f' force = Ok (href_of H m force, x', w) /\ lz_post c d force m x' w) ->
+  exists x' w, hash_node H c x force = Ok (href_of H m force, x', w) /\ lz_post c d force m x' w.
 Proof.
-  intros En L O Hh Hwalk. rewrite (hash_node_flagged c x f' force En).
+  intros En L O Hwalk. rewrite (hash_node_flagged c x f' force En).
   destruct (fhash f') as [h|] eqn:Ef; [|exact Hwalk].
   destruct (hdb c) eqn:Edb; cbn [negb].
   - destruct (can_unload f' c) eqn:Ecu.
-    + apply (cached_unload c d b force m f' h Ef O).
+    + apply (cached_unload c d force m f' h Ef O).
       unfold can_unload in Ecu. apply andb_prop in Ecu as [E _].
       destruct (fdirty f'); [discriminate E|reflexivity].
     + destruct (fdirty f') eqn:Efd; cbn [negb]; [exact Hwalk|].
-      apply (cached_keep c d b force m x f' h En Ef L O Hh). intros _. exact Efd.
-  - apply (cached_keep c d b force m x f' h En Ef L O Hh). rewrite Edb. intros E. discriminate E.
+      apply (cached_keep c d force m x f' h En Ef L O). intros _. exact Efd.
+  - apply (cached_keep c d force m x f' h En Ef L O). rewrite Edb. intros E. discriminate E.
 Qed.
 
 Lemma lzf_canon_nonnil d s m x : canon m = true -> lzf H d s m x ->
@@ -436,64 +389,62 @@ Proof.
   - destruct (lzf_full_inv _ _ _ _ _ L) as [[-> _]|(xs & f' & -> & _)]; reflexivity.
 Qed.
 
-Lemma slot_lazy c f i b m0 x0 d :
-  lz_ok m0 -> TrieRootProofs.child_ok i m0 -> lzf H d true m0 x0 -> hcl b true m0 x0 ->
-  (hdb c = false -> b = false) -> hash_big H m0 x0 -> all_fits H m0 ->
+Lemma slot_lazy c f i m0 x0 d :
+  lz_ok m0 -> TrieRootProofs.child_ok i m0 -> lzf H d true m0 x0 ->
+  hash_big H m0 x0 -> all_fits H m0 ->
   (canon m0 = true -> max_key_len (content_of m0) < f) -> db_sound H d ->
   exists x' w, hc_slot (fun y => hash_node H c y false) i x0 = Ok (item_at H f i m0, x', w)
     /\ wr_ok H w /\ (hdb c = false -> w = [])
     /\ lzf H (db_put_all d w) true m0 x' /\ hash_big H m0 x'
-    /\ (hdb c = true -> cov1 H (stored H (db_put_all d w)) m0)
-    /\ hcl b true m0 x'.
+    /\ (hdb c = true -> cov1 H (stored H (db_put_all d w)) m0).
 Proof.
-  intros Hx Hok L Hh Hb HB Hfit Hm Hsd. unfold hc_slot, TrieRootProofs.child_ok, item_at in *.
+  intros Hx Hok L HB Hfit Hm Hsd. unfold hc_slot, TrieRootProofs.child_ok, item_at in *.
   destruct (Nat.ltb i 16).
   - destruct Hok as [->|Hcx].
     + rewrite (lzf_nil_inv _ _ _ L). exists NNil, []. split; [reflexivity|]. split; [constructor|].
       split; [reflexivity|]. split; [apply lzf_nil|]. split; [apply hash_big_nil|].
-      split; [|apply hcl_nil]. intros _. split; [intros E; discriminate E|exact I].
-    + destruct (Hx d x0 c false b Hcx Hfit L Hh Hb (fun _ => HB) Hsd) as (x' & w & E & P).
-      destruct P as (Hw & Hnw & L' & B' & St & Cv & Hh').
+      intros _. split; [intros E; discriminate E|exact I].
+    + destruct (Hx d x0 c false Hcx Hfit L (fun _ => HB) Hsd) as (x' & w & E & P).
+      destruct P as (Hw & Hnw & L' & B' & St & Cv).
       exists x', w. split.
       * rewrite (lzf_canon_nonnil d true m0 x0 Hcx L), E. cbn [bind]. rewrite href_item_of.
         rewrite (n_ref_spec H f m0 Hcx (Hm Hcx)). reflexivity.
       * split; [exact Hw|]. split; [exact Hnw|]. split; [exact L'|]. split; [exact (B' eq_refl)|].
-        split; [|exact Hh']. intros Hdb. split; [|exact (Cv Hdb)].
+        intros Hdb. split; [|exact (Cv Hdb)].
         intros _ Hbg. apply St; auto.
   - destruct Hok as [->|[v ->]].
     + rewrite (lzf_nil_inv _ _ _ L). exists NNil, []. split; [reflexivity|]. split; [constructor|].
       split; [reflexivity|]. split; [apply lzf_nil|]. split; [apply hash_big_nil|].
-      split; [|apply hcl_nil]. intros _. split; [intros E; discriminate E|exact I].
+      intros _. split; [intros E; discriminate E|exact I].
     + rewrite (lzf_val_inv _ _ _ _ L). exists (NVal v), []. split; [reflexivity|]. split; [constructor|].
       split; [reflexivity|]. split; [apply lzf_val|]. split; [intros h E; discriminate E|].
-      split; [|apply hcl_val]. intros _. split; [intros E; discriminate E|exact I].
+      intros _. split; [intros E; discriminate E|exact I].
 Qed.
 
-Lemma go_lazy c f b : (hdb c = false -> b = false) -> forall cs xs i d,
+Lemma go_lazy c f : forall cs xs i d,
   Forall lz_ok cs -> slots_ok i cs ->
-  Forall2 (lzf H d true) cs xs -> Forall2 (hcl b true) cs xs -> Forall2 (hash_big H) cs xs ->
+  Forall2 (lzf H d true) cs xs -> Forall2 (hash_big H) cs xs ->
   Forall (all_fits H) cs ->
   (forall x, In x cs -> canon x = true -> max_key_len (content_of x) < f) -> db_sound H d ->
   exists xs' w, hc_go (fun y => hash_node H c y false) i xs = Ok (items H f i cs, xs', w)
     /\ wr_ok H w /\ (hdb c = false -> w = [])
     /\ Forall2 (lzf H (db_put_all d w) true) cs xs' /\ Forall2 (hash_big H) cs xs'
-    /\ (hdb c = true -> Forall (cov1 H (stored H (db_put_all d w))) cs)
-    /\ Forall2 (hcl b true) cs xs'.
+    /\ (hdb c = true -> Forall (cov1 H (stored H (db_put_all d w))) cs).
 Proof.
-  intros Hb. induction cs as [|m0 t IH]; intros xs i d HF Hs HL HH HB Hfit Hm Hsd.
+  induction cs as [|m0 t IH]; intros xs i d HF Hs HL HB Hfit Hm Hsd.
   - inversion HL; subst. exists [], []. split; [reflexivity|]. split; [constructor|].
     split; [reflexivity|]. repeat split; constructor.
   - inversion HL as [|? x0 ? xt L0 Lt]; subst.
-    inversion HH as [|? ? ? ? Hh0 Hht]; subst. inversion HB as [|? ? ? ? B0 Bt]; subst.
+    inversion HB as [|? ? ? ? B0 Bt]; subst.
     inversion HF as [|? ? Hx HF']; subst. inversion Hfit as [|? ? Hfit0 Hfitt]; subst.
     destruct Hs as [Hxok Hs].
-    destruct (slot_lazy c f i b m0 x0 d Hx Hxok L0 Hh0 Hb B0 Hfit0 (Hm m0 (or_introl eq_refl)) Hsd)
-      as (x0' & wx & Ex & Hwx & Hnwx & L0' & B0' & Cv0 & Hh0').
+    destruct (slot_lazy c f i m0 x0 d Hx Hxok L0 B0 Hfit0 (Hm m0 (or_introl eq_refl)) Hsd)
+      as (x0' & wx & Ex & Hwx & Hnwx & L0' & B0' & Cv0).
     assert (Hle1 : db_le d (db_put_all d wx)) by apply db_le_put_all.
     destruct (IH xt (S i) (db_put_all d wx) HF' Hs
                 (Forall2_impl _ _ (fun a b0 => lzf_mono_le _ _ Hle1 a true b0) _ _ Lt)
-                Hht Bt Hfitt (fun y Hy => Hm y (or_intror Hy)) (db_put_all_sound H wx d Hsd Hwx))
-      as (xt' & wt & Et & Hwt & Hnwt & Lt' & Bt' & Cvt & Hht').
+                Bt Hfitt (fun y Hy => Hm y (or_intror Hy)) (db_put_all_sound H wx d Hsd Hwx))
+      as (xt' & wt & Et & Hwt & Hnwt & Lt' & Bt' & Cvt).
     rewrite hc_go_cons, Ex. cbn [bind]. rewrite Et. cbn [bind].
     exists (x0' :: xt'), (wx ++ wt). split; [reflexivity|].
     rewrite db_put_all_app.
@@ -501,7 +452,7 @@ Proof.
     split; [apply Forall_app; split; assumption|].
     split; [intros Hdb; rewrite (Hnwx Hdb), (Hnwt Hdb); reflexivity|].
     split; [constructor; [exact (lzf_mono_le _ _ Hle2 _ _ _ L0')|exact Lt']|].
-    split; [constructor; assumption|]. split; [|constructor; assumption].
+    split; [constructor; assumption|].
     intros Hdb. constructor; [|exact (Cvt Hdb)].
     exact (cov1_mono H _ _ Hle2 _ (Cv0 Hdb)).
 Qed.
@@ -509,71 +460,64 @@ Qed.
 Theorem hash_node_lazy_aux : forall m, lz_ok m.
 Proof.
   induction m as [|k ch f IH|cs f IH|h|v] using node_ind';
-    unfold lz_ok; intros d x c force b Hc Hfit L Hh Hb HB Hsd; try discriminate Hc.
+    unfold lz_ok; intros d x c force Hc Hfit L HB Hsd; try discriminate Hc.
   - (* short node *)
     destruct (lzf_short_inv _ _ _ _ _ _ L) as [[-> Ha]|(x1 & f' & -> & L1 & B1 & O)].
     { rewrite hash_node_hashnode. apply lz_hash_case; [exact Ha|].
       destruct force; [right; reflexivity|left; exact (HB eq_refl _ eq_refl)]. }
-    apply (dispatch_lazy c d b force (NShort k ch f) (NShort k x1 f') f' eq_refl L O Hh).
+    apply (dispatch_lazy c d force (NShort k ch f) (NShort k x1 f') f' eq_refl L O).
     unfold walk_of. pose proof Hc as Hc0. pose proof Hfit as Hfit0.
     rewrite canon_short in Hc. apply andb_prop in Hc as [Hk Hc].
     assert (Hkne : k <> []) by (destruct k; [discriminate Hk|discriminate]).
-    destruct (hcl_short_inv _ _ _ _ _ _ _ Hh) as [Hh1 Hcl].
     destruct Hfit as [_ Hfitc].
     destruct ch as [| |cs0 f0| |v]; try discriminate Hc.
     + (* extension *)
       apply andb_prop in Hc as [Hp Hcc].
       assert (Hnv : is_val x1 = false).
       { destruct (lzf_full_inv _ _ _ _ _ L1) as [[-> _]|(? & ? & -> & _)]; reflexivity. }
-      destruct (IH d x1 c false b Hcc Hfitc L1 Hh1 Hb (fun _ => B1) Hsd) as (x1' & w1 & E & P).
-      destruct P as (Hw1 & Hnw1 & L1' & B1' & St1 & Cv1 & Hh1').
+      destruct (IH d x1 c false Hcc Hfitc L1 (fun _ => B1) Hsd) as (x1' & w1 & E & P).
+      destruct P as (Hw1 & Hnw1 & L1' & B1' & St1 & Cv1).
       rewrite hash_children_short_nv by exact Hnv. rewrite E. cbn [bind].
       destruct (spec_item_ext H k cs0 f0 f Hkne Hp Hcc) as (mm & Hmm & Es).
       rewrite (n_ref_spec H mm _ Hcc Hmm) in Es. rewrite <- href_item_of in Es. rewrite <- Es.
-      apply (finish_lazy c (NShort k (NFull cs0 f0) f) (NShort k x1' f') f' w1 d force b);
+      apply (finish_lazy c (NShort k (NFull cs0 f0) f) (NShort k x1' f') f' w1 d force);
         try assumption; try reflexivity.
       * intros Hdb. apply covers_p_short. split; [|exact (Cv1 Hdb)].
         intros _ Hbg. apply St1; auto.
       * intros d' fl Hle Ofl. cbn [set_flag].
         apply lzf_short; [exact (lzf_mono_le _ _ Hle _ _ _ L1')|exact (B1' eq_refl)|exact Ofl].
-      * intros fl Hfl. cbn [set_flag]. apply hcl_short; assumption.
     + (* leaf *)
       apply andb_prop in Hc as [Ht Hv].
       pose proof (lzf_val_inv _ _ _ _ L1) as Ex. subst x1.
       rewrite hash_children_short_val. cbn [bind]. rewrite <- (spec_item_leaf H k v f Ht).
-      apply (finish_lazy c (NShort k (NVal v) f) (NShort k (NVal v) f') f' [] d force b);
+      apply (finish_lazy c (NShort k (NVal v) f) (NShort k (NVal v) f') f' [] d force);
         try assumption; try reflexivity.
       * constructor.
       * intros _. apply covers_p_short. split; [intros E; discriminate E|exact I].
       * intros d' fl Hle Ofl. cbn [set_flag].
         apply lzf_short; [apply lzf_val|intros h0 E; discriminate E|exact Ofl].
-      * intros fl Hfl. cbn [set_flag]. apply hcl_short; [apply hcl_val|exact Hfl].
   - (* full node *)
     destruct (lzf_full_inv _ _ _ _ _ L) as [[-> Ha]|(xs & f' & -> & Ls & Bs & O)].
     { rewrite hash_node_hashnode. apply lz_hash_case; [exact Ha|].
       destruct force; [right; reflexivity|left; exact (HB eq_refl _ eq_refl)]. }
-    apply (dispatch_lazy c d b force (NFull cs f) (NFull xs f') f' eq_refl L O Hh).
+    apply (dispatch_lazy c d force (NFull cs f) (NFull xs f') f' eq_refl L O).
     unfold walk_of.
-    destruct (hcl_full_inv _ _ _ _ _ _ Hh) as [Hhs Hcl].
     destruct (spec_item_full H cs f Hc) as (mm & Hmm & Es).
     pose proof (proj2 (proj1 (all_fits_full H cs f) Hfit)) as Hfits.
-    destruct (go_lazy c mm b Hb cs xs 0 d IH (canon_slots_ok _ _ Hc) Ls Hhs Bs Hfits Hmm Hsd)
-      as (xs' & w1 & Eg & Hw1 & Hnw1 & Ls' & Bs' & Cv1 & Hhs').
+    destruct (go_lazy c mm cs xs 0 d IH (canon_slots_ok _ _ Hc) Ls Bs Hfits Hmm Hsd)
+      as (xs' & w1 & Eg & Hw1 & Hnw1 & Ls' & Bs' & Cv1).
     rewrite hash_children_full, Eg. cbn [bind]. rewrite <- Es.
-    apply (finish_lazy c (NFull cs f) (NFull xs' f') f' w1 d force b); try assumption; try reflexivity.
+    apply (finish_lazy c (NFull cs f) (NFull xs' f') f' w1 d force); try assumption; try reflexivity.
     + intros Hdb. apply covers_p_full. exact (Cv1 Hdb).
     + intros d' fl Hle Ofl. cbn [set_flag]. apply lzf_full; [|exact Bs'|exact Ofl].
       exact (Forall2_impl _ _ (fun a b0 => lzf_mono_le _ _ Hle a true b0) _ _ Ls').
-    + intros fl Hfl. cbn [set_flag]. apply hcl_full; assumption.
 Qed.
 
-(* hasher.hash on the in-memory form x of m: the reference of m, the cached node
-   again represents m over the database after the writes.  b = false is needed
-   for Hash (no database) only; it is preserved in both modes. *)
-Theorem hash_node_lazy : forall (c : hctx) (force b : bool) d m x,
+(* hasher.hash on the in-memory form x of m: the reference of m; the cached node
+   again represents m over the database after the writes *)
+Theorem hash_node_lazy : forall (c : hctx) (force : bool) d m x,
   canon m = true -> all_fits H m -> lzf H d (negb force) m x ->
   (force = false -> hash_big H m x) -> db_sound H d ->
-  (hdb c = false -> b = false) -> hcl b (negb force) m x ->
   exists x' w,
     hash_node H c x force =
       Ok (if big H m || force then RHash (H (spec_enc H m)) else RInline (spec_item H m), x', w)
@@ -581,16 +525,16 @@ Theorem hash_node_lazy : forall (c : hctx) (force b : bool) d m x,
     /\ let d' := db_put_all d w in
        lzf H d' (negb force) m x' /\ (force = false -> hash_big H m x')
        /\ (hdb c = true -> (big H m = true \/ force = true) -> stored H d' m)
-       /\ (hdb c = true -> covers H d' m)
-       /\ hcl b (negb force) m x'.
+       /\ (hdb c = true -> covers H d' m).
 Proof.
-  intros c force b d m x Hc Hfit L HB Hsd Hb Hh.
-  destruct (hash_node_lazy_aux m d x c force b Hc Hfit L Hh Hb HB Hsd) as (x' & w & E & P).
+  intros c force d m x Hc Hfit L HB Hsd.
+  destruct (hash_node_lazy_aux m d x c force Hc Hfit L HB Hsd) as (x' & w & E & P).
   exists x', w. rewrite (href_of_lref m force) in E. split; [exact E|].
-  destruct P as (P1 & P2 & P3 & P4 & P5 & P6 & P7). cbv zeta. repeat split; assumption.
+  destruct P as (P1 & P2 & P3 & P4 & P5 & P6). cbv zeta.
+  split; [exact P1|]. split; [exact P2|]. split; [exact P3|]. split; [exact P4|]. split; [exact P5|exact P6].
 Qed.
 
-(* with a database (Commit): no side condition *)
+(* with a database (Commit) *)
 Theorem hash_node_lazy_db : forall (c : hctx) (force : bool) d m x,
   hdb c = true -> canon m = true -> all_fits H m -> lzf H d (negb force) m x ->
   (force = false -> hash_big H m x) -> db_sound H d ->
@@ -603,27 +547,25 @@ Theorem hash_node_lazy_db : forall (c : hctx) (force : bool) d m x,
        /\ ((big H m = true \/ force = true) -> stored H d' m) /\ covers H d' m.
 Proof.
   intros c force d m x Hdb Hc Hfit L HB Hsd.
-  destruct (hash_node_lazy c force true d m x Hc Hfit L HB Hsd) as (x' & w & E & Hw & _ & P).
-  - rewrite Hdb. intros E. discriminate E.
-  - eapply lzf_hcl_true. exact L.
-  - exists x', w. split; [exact E|]. split; [exact Hw|]. cbv zeta in *.
-    destruct P as (P3 & P4 & P5 & P6 & _). repeat split; auto.
+  destruct (hash_node_lazy c force d m x Hc Hfit L HB Hsd) as (x' & w & E & Hw & _ & P).
+  exists x', w. split; [exact E|]. split; [exact Hw|]. cbv zeta in *.
+  destruct P as (P3 & P4 & P5 & P6).
+  split; [exact P3|]. split; [exact P4|]. split; [exact (P5 Hdb)|exact (P6 Hdb)].
 Qed.
 
-(* without a database (Hash): nothing is written *)
+(* without a database (Hash, Prove): nothing is written *)
 Theorem hash_node_lazy_nodb : forall (c : hctx) (force : bool) d m x,
   hdb c = false -> canon m = true -> all_fits H m -> lzf H d (negb force) m x ->
-  (force = false -> hash_big H m x) -> db_sound H d -> hcl false (negb force) m x ->
+  (force = false -> hash_big H m x) -> db_sound H d ->
   exists x',
     hash_node H c x force =
       Ok (if big H m || force then RHash (H (spec_enc H m)) else RInline (spec_item H m), x', [])
-    /\ lzf H d (negb force) m x' /\ (force = false -> hash_big H m x') /\ hcl false (negb force) m x'.
+    /\ lzf H d (negb force) m x' /\ (force = false -> hash_big H m x').
 Proof.
-  intros c force d m x Hdb Hc Hfit L HB Hsd Hh.
-  destruct (hash_node_lazy c force false d m x Hc Hfit L HB Hsd (fun _ => eq_refl) Hh)
-    as (x' & w & E & _ & Hnw & P).
+  intros c force d m x Hdb Hc Hfit L HB Hsd.
+  destruct (hash_node_lazy c force d m x Hc Hfit L HB Hsd) as (x' & w & E & _ & Hnw & P).
   rewrite (Hnw Hdb) in *. exists x'. split; [exact E|]. cbv zeta in P. rewrite db_put_all_nil in P.
-  destruct P as (P3 & P4 & _ & _ & P7). repeat split; assumption.
+  destruct P as (P3 & P4 & _). split; [exact P3|exact P4].
 Qed.
 
 (* ------------------------------------------------------------------ (2) Trie.Hash / Trie.Commit *)
@@ -634,58 +576,35 @@ Lemma hash_root_nonnil_eq t withdb : troot t <> NNil ->
     match hr with RHash h => Ok (to_hash h, cached, w) | RInline _ => Panic end).
 Proof. intros Hne. unfold hash_root. destruct (troot t); [congruence|reflexivity..]. Qed.
 
-Lemma hash_root_lazy withdb b d m t :
+Lemma hash_root_lazy withdb d m t :
   lazy_trie H d m t -> all_fits H m -> db_sound H d ->
-  (withdb = false -> b = false) -> hcl b false m (troot t) ->
   exists x' w, hash_root H t withdb = Ok (mpt_root_hex H (content_of m), x', w)
     /\ wr_ok H w /\ (withdb = false -> w = [])
-    /\ lzf H (db_put_all d w) false m x' /\ hcl b false m x'
+    /\ lzf H (db_put_all d w) false m x'
     /\ (withdb = true -> m <> NNil -> avail H (db_put_all d w) m).
 Proof.
-  intros (Hcr & L & _ & _) Hfit Hsd Hb Hh.
+  intros (Hcr & L & _ & _) Hfit Hsd.
   unfold canon_root in Hcr. apply orb_true_iff in Hcr as [Hnil|Hc].
   - destruct m; try discriminate Hnil. pose proof (lzf_nil_inv _ _ _ L) as Ex.
     unfold hash_root. rewrite Ex. exists NNil, []. split; [reflexivity|]. split; [constructor|].
-    split; [reflexivity|]. split; [apply lzf_nil|]. split; [apply hcl_nil|].
+    split; [reflexivity|]. split; [apply lzf_nil|].
     intros _ Hne. congruence.
   - assert (Hne : troot t <> NNil).
     { intros E. pose proof (lzf_canon_nonnil d false m (troot t) Hc L bool true false) as E2.
       rewrite E in E2. discriminate E2. }
     rewrite (hash_root_nonnil_eq t withdb Hne).
-    destruct (hash_node_lazy_aux m d (troot t) (mkHctx withdb (tgen t) (tlimit t)) true b Hc Hfit L Hh Hb
+    destruct (hash_node_lazy_aux m d (troot t) (mkHctx withdb (tgen t) (tlimit t)) true Hc Hfit L
                 (fun E => False_ind _ (Bool.diff_true_false E)) Hsd) as (x' & w & E & P).
     rewrite (href_of_hash m true (or_intror eq_refl)) in E.
-    destruct P as (P1 & P2 & P3 & _ & P5 & P6 & P7). cbn [hdb negb] in *.
+    destruct P as (P1 & P2 & P3 & _ & P5 & P6). cbn [hdb negb] in *.
     rewrite E. cbn [bind]. rewrite (to_hash_H H Hlen), (root_hash_eq H m Hc).
     exists x', w. split; [reflexivity|]. split; [exact P1|]. split; [exact P2|].
-    split; [exact P3|]. split; [exact P7|].
+    split; [exact P3|].
     intros Hdb _. split; [exact Hc|]. split; [exact Hfit|]. split; [apply P5; auto|apply P6; exact Hdb].
 Qed.
 
 Lemma gen_next_lt g : ((g + 1) mod 65536 < 65536)%N.
 Proof. apply N.mod_lt. discriminate. Qed.
-
-(* Commit, with the side condition threaded (b = true: no condition) *)
-Theorem trie_commit_lazy_gen : forall b d m t,
-  lazy_trie H d m t -> all_fits H m -> db_sound H d -> hcl b false m (troot t) ->
-  exists t' d', trie_commit H t d = Ok (mpt_root_hex H (content_of m), t', d')
-    /\ lazy_trie H d' m t' /\ db_sound H d'
-    /\ (forall m0, canon m0 = true -> stored H d m0 -> stored H d' m0)
-    /\ (m <> NNil -> avail H d' m)
-    /\ hcl b false m (troot t').
-Proof.
-  intros b d m t HL Hfit Hsd Hh.
-  destruct (hash_root_lazy true b d m t HL Hfit Hsd (fun E => False_ind _ (Bool.diff_true_false E)) Hh)
-    as (x' & w & E & Hw & _ & L' & Hh' & Ha).
-  destruct HL as (Hcr & _ & Hg & Hl).
-  unfold trie_commit. rewrite E. cbn [bind]. eexists. eexists. split; [reflexivity|].
-  split; [|split; [|split; [|split]]].
-  - split; [exact Hcr|]. split; [exact L'|]. split; [apply gen_next_lt|exact Hl].
-  - apply db_put_all_sound; assumption.
-  - apply db_le_put_all.
-  - intros Hne. apply Ha; [reflexivity|exact Hne].
-  - exact Hh'.
-Qed.
 
 Theorem trie_commit_lazy : forall d m t,
   lazy_trie H d m t -> all_fits H m -> db_sound H d ->
@@ -695,61 +614,25 @@ Theorem trie_commit_lazy : forall d m t,
     /\ (m <> NNil -> avail H d' m).
 Proof.
   intros d m t HL Hfit Hsd.
-  destruct (trie_commit_lazy_gen true d m t HL Hfit Hsd) as (t' & d' & E & P1 & P2 & P3 & P4 & _).
-  - destruct HL as (_ & L & _). eapply lzf_hcl_true. exact L.
-  - exists t', d'. split; [exact E|]. split; [exact P1|]. split; [exact P2|]. split; [exact P3|exact P4].
+  destruct (hash_root_lazy true d m t HL Hfit Hsd) as (x' & w & E & Hw & _ & L' & Ha).
+  destruct HL as (Hcr & _ & Hg & Hl).
+  unfold trie_commit. rewrite E. cbn [bind]. eexists. eexists. split; [reflexivity|].
+  split; [|split; [|split]].
+  - split; [exact Hcr|]. split; [exact L'|]. split; [apply gen_next_lt|exact Hl].
+  - apply db_put_all_sound; assumption.
+  - apply db_le_put_all.
+  - intros Hne. apply Ha; [reflexivity|exact Hne].
 Qed.
 
-(* Hash.  The side condition hcl false (every clean node without cached hash is an
-   embedded small child) is necessary: without it the statement is false, see
-   trie_hash_lazy_needs_hcl below. *)
 Theorem trie_hash_lazy : forall d m t,
-  lazy_trie H d m t -> all_fits H m -> db_sound H d -> hcl false false m (troot t) ->
-  exists t', trie_hash H t = Ok (mpt_root_hex H (content_of m), t')
-    /\ lazy_trie H d m t' /\ hcl false false m (troot t').
+  lazy_trie H d m t -> all_fits H m -> db_sound H d ->
+  exists t', trie_hash H t = Ok (mpt_root_hex H (content_of m), t') /\ lazy_trie H d m t'.
 Proof.
-  intros d m t HL Hfit Hsd Hh.
-  destruct (hash_root_lazy false false d m t HL Hfit Hsd (fun _ => eq_refl) Hh)
-    as (x' & w & E & _ & Hnw & L' & Hh' & _).
+  intros d m t HL Hfit Hsd.
+  destruct (hash_root_lazy false d m t HL Hfit Hsd) as (x' & w & E & _ & Hnw & L' & _).
   rewrite (Hnw eq_refl), db_put_all_nil in L'. destruct HL as (Hcr & _ & Hg & Hl).
-  unfold trie_hash. rewrite E. cbn [bind]. eexists. split; [reflexivity|]. split; [|exact Hh'].
+  unfold trie_hash. rewrite E. cbn [bind]. eexists. split; [reflexivity|].
   split; [exact Hcr|]. split; [exact L'|]. split; assumption.
-Qed.
-
-(* ------------------------------------------------------------------ the side condition is necessary *)
-
-(* TrieLazyDefs.flag_ok allows a clean root without cached hash that is not in the
-   database (Go never builds one: clean nodes without cached hash are the embedded
-   small children decodeNode returns).  Hash caches the hash on it and leaves it
-   clean, and the clean clause of flag_ok then asks for the node in the database:
-   lazy_trie alone is not preserved by Trie.Hash. *)
-Theorem trie_hash_lazy_needs_hcl :
-  exists d m t, lazy_trie H d m t /\ all_fits H m /\ db_sound H d /\
-    forall r t', trie_hash H t = Ok (r, t') -> ~ lazy_trie H d m t'.
-Proof.
-  exists [], (NShort [term] (NVal [x01]) flag0),
-         (mkTrie (NShort [term] (NVal [x01]) (mkFlag None 0 false)) 0 0).
-  assert (Hfit : all_fits H (NShort [term] (NVal [x01]) flag0)).
-  { split; [vm_compute; reflexivity|exact I]. }
-  split; [|split; [exact Hfit|split]].
-  - split; [reflexivity|]. split; [|split; reflexivity]. cbn [troot].
-    apply lzf_short; [apply lzf_val|intros h E; discriminate E|]. split.
-    + intros h E. discriminate E.
-    + intros _. split; [reflexivity|]. split; [exact Hfit|]. split.
-      * split; [intros E; discriminate E|exact I].
-      * intros h E. discriminate E.
-  - intros h e E. discriminate E.
-  - intros r t' E (_ & L & _). unfold trie_hash in E.
-    rewrite hash_root_nonnil_eq in E by (cbn [troot]; discriminate). cbn [troot tgen tlimit] in E.
-    rewrite (hash_node_flagged _ (NShort [term] (NVal [x01]) (mkFlag None 0 false))
-               (mkFlag None 0 false) true eq_refl) in E. cbn [fhash] in E.
-    unfold walk_of in E. rewrite hash_children_short_val in E. cbn [bind] in E.
-    rewrite store_lazy in E by (intros h Eh; discriminate Eh).
-    cbn [negb] in E. rewrite andb_false_r in E. cbn [hdb bind set_hash_flag fgen fdirty] in E.
-    injection E as _ <-. cbn [troot] in L.
-    inversion L as [| | |s0 k0 c0 x0 f0 f' L1 B1 O1|]; subst.
-    destruct O1 as [_ O2]. destruct (O2 eq_refl) as (_ & _ & _ & Hst).
-    specialize (Hst _ eq_refl). discriminate Hst.
 Qed.
 
 End LazyCommit.
